@@ -102,7 +102,11 @@ reg("C12", ["c12_slip.c"], level="fault_enumeration",
          "encoder and decoder; injected error codes vary over small, large and count-like values. 'octets': every "
          "octet value alone, behind an escape octet, between ordinary octets and in front of a delimiter in uses "
          "(a)-(c). 'random': seeded strings up to 1 KiB (full alphabet, control-heavy, control-only) as payload and "
-         "(first 96 octets) as raw decoder input and garbage prefix. "
+         "(first 96 octets) as raw decoder input and garbage prefix, to two decoders (one classic, one start-of-frame) "
+         "working alternately call by call, and through a SLIP-over-SLIP tunnel (a sink whose driver encodes every "
+         "chunk it is handed on a lower sink). Chunk sinks take all, 1, 2 or 3 octets per call or write in pages of "
+         "4 / 16 octets; contexts come from rfc1055_context_init() or from the header's static initialisers, "
+         "alternately. "
          "A signature is a distinct string of length <= 4 or a (generator, unit) pair; evaluations counts "
          "(string, configuration, use) executions.",
     exhaustive={"quick": "all strings of length <= 7 over the 5-symbol alphabet in all three uses and 8 configurations",
@@ -119,7 +123,10 @@ reg("C17", ["c17_endpoints.c"], level="fault_enumeration",
          "a poisoned arena (a third of the sts_n / sts_drain runs over chunk sources expose a 1..5 octet transfer "
          "window through getbuffer); 'random': long transfers with random scripts; 'huge': single driver calls of "
          "2^31..2^32+3 octets and the largest legal count SSIZE_MAX; 'lib': the library's own buffer, chunk-list and "
-         "trivial endpoints. Injected hard error codes vary over small, large and count-like values. A signature is "
+         "trivial endpoints; 'layered': a stuffing filter sink / un-stuffing source whose drivers use the endpoint API "
+         "on a lower endpoint, under sink_put_octet, sink_put_chunk, sts_cbc, sts_n_cbc, sts_drain_cbc, sts_n, "
+         "sts_drain, sts_n_aux, source_get_chunk and source_get_octet. Endpoints are set up by the init functions or "
+         "the header's initialiser macros, alternately. Injected hard error codes vary over small, large and count-like values. A signature is "
          "a distinct short script "
          "(pair) or a (generator, unit); evaluations counts (script, N, entry point) executions.",
     assumptions=["the getbuffer extension has no implementer and no written contract in the tree; it is exercised the way endpoints/core.c uses it (a scratch window of the source that octets are read into before they go to the sink) for sts_n and sts_drain over chunk sources, with endpoints whose failure is final: with a window in play the plumbing retries after a sink reported -ENOMEM and the octets already taken from the source are lost - whether a sink may recover from -ENOMEM is not written down anywhere, so a sink that reports it once and accepts data afterwards is not part of these runs",
@@ -134,8 +141,11 @@ reg("C13", ["c13_lenp.c"],
          "inactive chunks) x 3 sink styles (chunk, octet, chunk accepting <= 3 octets per call); 'bounds': lengths "
          "around 127/128, 255/256, 16383/16384, 65535/65536; 'huge': 2^32-2..2^32+1, SSIZE_MAX-20..SSIZE_MAX+1, "
          "UINT64_MAX into a counting sink; 'dec': 3 decoder entry points x destination capacity len-1/len/len+1 x "
-         "octet/chunk sources with random fragmentation x 1..3 frames back to back; 'frag': every fragmentation "
-         "(2^(L-1) cut masks) of short two-frame streams. A signature is (generator, kind, length[, entry]); "
+         "octet/chunk sources with random fragmentation x 1..3 frames back to back (chunk sources also exposing a "
+         "3..80 octet transfer window through getbuffer); 'frag': every fragmentation (2^(L-1) cut masks) of short "
+         "two-frame streams; 'tunnel': the four sink entry points x 6 kinds writing into a sink whose driver wraps "
+         "every chunk into an inner frame (one-octet or varint prefix) on a lower sink - nested encoder calls. Calls "
+         "with the variable-length kind go through the lenp_* wrappers every second time. A signature is (generator, kind, length[, entry]); "
          "evaluations counts encoder/decoder cases compared with the reference prefix codec.",
     exhaustive={"quick": "all fragmentations of two-frame streams of total length <= 12",
                 "thorough": "all fragmentations of two-frame streams of total length <= 12"})
@@ -158,7 +168,8 @@ reg("C10", ["c10_pstore.c"],
     rule="units = data sizes {1..5,7,8,9,15,16,17,31,32,33,40} (quick) / 1..48 and selected sizes up to 130 "
          "(thorough); per size: placements {0,1,7,4093} x checksum {default 16-bit sum, CRC-16/ARC, 32-bit rotating "
          "sum} x auxiliary buffer {none, non-NULL size 0, sizes 1..size+1 (sub-sampled for larger sizes in quick)}; "
-         "per configuration: reset with two fill values, full store, partial stores at (offset, length) pairs (all "
+         "per configuration: reset with two fill values, partial stores of 0 and 1 octets onto the medium that was only "
+         "filled (checksum field included: every successful store must leave a medium that validates), full store, partial stores at (offset, length) pairs (all "
          "pairs for small sizes, boundary + seeded sample otherwise) over evolving content each followed by "
          "validate, fetch and fetch_part, out-of-range part accesses incl. offset+length pairs that wrap size_t, and "
          "three alterations of every octet of the region. 'reconf': 300 (quick) / 4000 (thorough) units of six "
@@ -256,7 +267,10 @@ reg("C05", ["c05_history.c"],
          "always-fail registers and with write callbacks everywhere; 40 rounds of out-of-band corruption of register "
          "words (random, bound +-1, NaN/infinite patterns, all-ones) and gap words, each followed by sanitise. After "
          "every step: whole storage, every register_get, touched marks, and the constraint of every "
-         "min/max/range/callback register. 2000+1000 units quick, 200000+50000 thorough. A signature is a unit; "
+         "min/max/range/callback register. Histories on tables with always-fail registers contain unjudged sanitise "
+         "calls (half of them after out-of-band damage; what they leave violating is put right out of band); every "
+         "other pair of histories a second small table at the same addresses is used between the steps. 2000+1000 "
+         "units quick, 200000+50000 thorough. A signature is a unit; "
          "evaluations counts steps.",
     assumptions=["typed set / bit operations on registers in areas flagged read-only (write callback present): the "
                  "statements do not rule; either outcome is accepted as long as its effect is consistent"],
@@ -274,8 +288,12 @@ reg("C06", ["c06_regp_exec.c"],
          "also uninitialised) through regaccess2blockaccess; the expected verdict comes from calling the register API "
          "directly on the same state. 'bigblock': 104 units = {serial,TCP} x {8,16-bit} x {read,write} x word counts "
          "{129,365,1000,16383,16384,32767,32768,32769,40000,65535,65536,65537,70001} through an allocator with "
-         "300000-octet blocks, payloads compared in full. A signature is a (unit, session); evaluations counts "
-         "frames processed.")
+         "300000-octet blocks, payloads compared in full. Every other session has noise between its requests "
+         "(damaged, truncated, oversized frames, allocation failures), every other pair of sessions a second "
+         "instance with the opposite transport and word size serving requests in between. 'marathon': 70000 requests "
+         "on one instance; 'pipeline': 2..6 requests back to back in the source, through octet sources and sources "
+         "exposing a 1..80 octet transfer window. A signature is a (unit, session); evaluations counts frames "
+         "processed.")
 
 reg("C08", ["c08_regp_emit.c"],
     rule="'emit': per unit (transport x memory word size x session starting at a random sequence number or at 0xfffd) "
@@ -286,7 +304,8 @@ reg("C08", ["c08_regp_emit.c"],
          "requests and the payload acknowledgement; 'huge': payloads of 65534..140002 octets (2^16 octets and 2^16 "
          "words and beyond); 'seqsweep': on the serial link every sequence number once per entry point and memory "
          "word size, so that the header checksum takes every 16-bit value about once. Each emission is compared "
-         "octet for octet with the reference "
+         "octet for octet with the reference (the emitter's sink takes all or 1, 3, 7, 64 octets per call; allocators "
+         "are of the generic or the slab type, alternately) "
          "encoder and then received by a peer instance. A signature is a (unit, round); evaluations counts emissions.")
 
 reg("C07", ["c07_regp_corrupt.c"], level="fault_enumeration",
@@ -306,7 +325,8 @@ reg("C07", ["c07_regp_corrupt.c"], level="fault_enumeration",
          "by the loop documented in regp_recv() with one RPMaybeFrame; the damage is applied behind the SLIP encoder: "
          "every single-bit flip of the wire octets, two-bit flips (<= 9 bits apart plus a seeded sample), bursts of "
          "2..16 bits, every octet lost or duplicated. A signature is a unit; evaluations counts mutated/generated "
-         "frames and sessions judged.",
+         "frames and sessions judged. Every seventh frame meets a reply channel that is down (all sink writes "
+         "refused): classification, no execution and no acknowledgement are judged as before, the reply's form is not.",
     assumptions=["reading choices of the reference decoder (DESIGN.md section 7, C07): a checksum field occupies a "
                  "header word only if its option bit is set; the header checksum covers the six fixed words plus the "
                  "payload-checksum word when present; an odd number of payload octets under 16-bit semantics is an "
